@@ -23,6 +23,7 @@ CHECKS = {
  'C13': ('model_checking', 'tlc-wrap', 'spec/WrapMachine.tla: stacks of wrapper functions around a base function; the reported signature is the fold of the Forwards model and the invariant ChainSound says every non-colliding call it accepts passes the whole chain of CPython bindings (Wrappers!ChainOutcome), checked by TLC over simulated stacks of depth <= 3. Real stacks built with wrappers.decorator / wrappers.wrapper_decorator (function, method, staticmethod) and wrappers.Combination are retrieved through four routes and really called on the call set next to the hand-written composition; TLC (Trace_Wrap) checks result-equality for every call, soundness of every reported signature, method binding, wrappers() listing, and (drift) that ChainOutcome predicted which calls run.', '§5 C13'),
  'C15': ('model_checking', 'tlc-algebra', 'ValidSig / upgraded / +depths of every model result as TLC invariants; on the real code every outcome over role-inconsistent inputs, foreign and duplicate names, n up to len+2 and all flags is classified by TLC (signature / IncompatibleSignatures / ValueError / other), and each sampled case is re-run with plain inspect inputs (same parameters + DeprecationWarning).', '§5 C15'),
  'C16': ('model_checking', 'tlc-algebra + tlc-retrieval', 'Algebra purity: TLC compares deep projections of all inputs before/after every real call and the identities of all provenance containers of inputs and result. Crash points: see level_note.', '§5 C16'),
+ 'C18': ('model_checking', 'tlc-history', 'spec/ObjHist.tla models the caller\'s references, the weak-keyed descriptor cache and reclamation (invariants Reclaimed, NoStaleEntry; the pinned caching mode violates Reclaimed in two steps) and generates every history of use; spec/ModOrder.tla models stacked kwoargs/posoargs/autokwoargs applications (invariant: the state is a function of the set of steps, whatever admissible order). Every generated history is executed on fresh classes for 8 kinds of descriptor with each result compared to a fresh twin, calls checked to reach the right instance and dropped instances observed through weak references; every permutation of sampled modifier applications is really applied and the admissible ones compared on every route and on the complete call set; TLC (Trace_Hist) walks each history with ObjHist\'s state.', '§5 C18'),
  'C19': ('model_checking', 'tlc-algebra', 'TLC explores mask-in-partial-mode over universe x bindings with exactness against PartialAccepts as invariant; on the real code every partial object is really called on the complete call set and TLC checks the reported signature accepts exactly what the partial accepted, plus the structural and provenance claims.', '§5 C19'),
  'C20': ('model_checking', 'tlc-pybind', 'Three-way agreement CPython / support.bind_callsig / PyBind!Bind on acceptance and full delivery map for every universe signature x every shape of the complete call set with distinguishable values, evaluated by TLC; sort_callsigs and make_up_callsigs clauses; this check owns the validation of the binding oracle.', '§5 C20'),
 }
@@ -34,7 +35,6 @@ PENDING = {
  'C11': 'check under construction (annotation-context model)',
  'C14': 'check under construction (ObjModel menagerie)',
  'C17': 'check under construction (concurrent Retrieval model + line-level scheduler)',
- 'C18': 'check under construction (Modifiers history model)',
 }
 
 
@@ -67,6 +67,8 @@ def main():
              'kind_free_text': 'TLA+ transcription of the modifiers decorators (prepare / routing) with the C12 contract; real decorated functions called on the complete call set and validated by TLC'},
             {'name': 'tlc-wrap', 'path': 'spec/Wrappers.tla spec/WrapMachine.tla spec/Trace_Wrap.tla harness/wrapstack.py harness/checks/c13.py', 'serves_properties': ['C13'],
              'kind_free_text': 'TLA+ model of decorator stacks (chain of bindings, fold of forwards); real stacks and Combinations executed next to the hand-written composition and validated by TLC'},
+            {'name': 'tlc-history', 'path': 'spec/ObjHist.tla spec/ModOrder.tla spec/Trace_Hist.tla harness/hist.py harness/checks/c18.py', 'serves_properties': ['C18'],
+             'kind_free_text': 'TLA+ model of references / descriptor cache / reclamation whose behaviours are histories of use, and of stacked modifier applications; histories replayed on real objects against fresh twins and validated by TLC'},
             {'name': 'tlc-exec', 'path': 'spec/Wrappers.tla spec/Trace_Exec.tla harness/progs.py', 'serves_properties': ['C04', 'C05', 'C06'],
              'kind_free_text': 'execution semantics of forwarding wrappers in TLA+; generated programs really executed and their outcomes validated by TLC'},
             {'name': 'tlc-pybind', 'path': 'spec/PyBind.tla spec/PyBindMachine.tla spec/Trace_PyBind.tla harness/checks/c20.py', 'serves_properties': ['C20'],
